@@ -15,11 +15,9 @@ func c07DHCP4(entry string, n []uint64, f []string) string {
 			return "err"
 		}
 		o := m.Options
-		hasOpts := len(data) >= 240 && data[236] == 0x63 && data[237] == 0x82 && data[238] == 0x53 && data[239] == 0x63
 		toks := []string{c07U(uint64(m.Op)), c07U(uint64(m.HType)), c07U(uint64(m.HLen)), c07U(uint64(m.Hops)),
 			c07U(uint64(m.XID)), c07U(uint64(m.Secs)), c07U(uint64(m.Flags)), c07TB(m.ClientIP), c07TB(m.YourIP),
 			c07TB(m.ServerIP), c07TB(m.GatewayIP), c07TB(m.ClientHWAddr), c07TB(m.ServerName[:]), c07TB(m.BootFileName[:]),
-			c07Bool(hasOpts),
 			c07U(uint64(o.MessageType)), c07TBN(o.ServerID), c07TBN(o.RequestedIP), c07TB([]byte(o.Hostname)),
 			c07TBN(o.ClientID), c07U(uint64(o.LeaseTime)), c07TBN(o.SubnetMask), c07TBN(o.Router), c07U(uint64(len(o.DNS)))}
 		for _, d := range o.DNS {
